@@ -4,7 +4,7 @@
     hunk iterator (Layer A), and the histogram LCS (Layer B, [M_hist]). *)
 From Coq Require Import Lia Arith Sorted.
 From Verif Require Import Base.Prelude Model.Diff Model.C03
-     Proofs.DiffBase Proofs.DiffA Proofs.DiffA2 Proofs.DiffA3 Proofs.DiffA4 Proofs.DiffThm Proofs.C03.
+     Proofs.DiffBase Proofs.DiffA Proofs.DiffA2 Proofs.DiffA3 Proofs.DiffA4 Proofs.DiffThm Proofs.C03 Proofs.DiffB4.
 
 (** Layer A: for ANY matching function [M] whose results are in range and strictly
     increasing in both coordinates ([valid_matching], decided by [valid_matchingb]), every
@@ -87,20 +87,84 @@ Theorem C03_model_passes_checker : forall M,
   hunks_okb s inputs (hunks (run_steps M s inputs)) = true.
 Proof. exact model_passes_checker. Qed.
 
-(** Layer B obligation: the histogram matching satisfies the Layer-A hypotheses. *)
-Definition C03_layerB_valid_stmt : Prop :=
-  forall a b, valid_matching (length a) (length b) (M_hist a b) /\ eq_matching a b (M_hist a b).
+(** Layer B: the modelled histogram LCS ([Histogram::calculate] with the occurrence cut-off,
+    the lowest-count selection, [find_lcs], the recursion into gaps and the leading/trailing
+    fallback) returns, for EVERY iteration order of the hash table that is a permutation of
+    its entries and every cut-off, a matching that is in range, strictly increasing in both
+    coordinates and token-equal. Hence the hypotheses of the Layer-A theorems hold for the
+    modelled [ContentDiff]. *)
+Theorem C03_layerB_valid :
+  forall (T : Type) (eqb : T -> T -> bool), (forall x y, eqb x y = true <-> x = y) ->
+  forall (order : list (T * list nat) -> list (T * list nat)),
+    (forall h, Permutation.Permutation (order h) h) ->
+  forall (max_occ : nat) (left right : list T),
+    let R := collect_unchanged_words eqb order max_occ left right in
+    (Forall (fun p => fst p < length left /\ snd p < length right) R
+     /\ StronglySorted (fun p q => fst p < fst q /\ snd p < snd q) R)
+    /\ Forall (fun q => exists k, nth_error left (fst q) = Some k /\ nth_error right (snd q) = Some k) R.
+Proof. exact @collect_unchanged_words_valid. Qed.
 
-(** The unconditional statement for the modelled [ContentDiff] (follows from the Layer-A
-    theorems once [C03_layerB_valid_stmt] is proved). *)
+(** [find_lcs] alone: strictly increasing chains of pairs [(input[r], r)], for any input vector. *)
+Theorem C03_find_lcs_valid : forall input : list nat,
+  StronglySorted (fun p q => fst p < fst q /\ snd p < snd q) (find_lcs input)
+  /\ (forall q, In q (find_lcs input) -> nth_error input (snd q) = Some (fst q))
+  /\ (input <> [] -> find_lcs input <> []).
+Proof. exact DiffB1.find_lcs_spec. Qed.
+
+(** The unconditional statements for the modelled [ContentDiff] ([diff_hunks] = Layer A over
+    the histogram matching with the scraped cut-off). *)
+Theorem C03_diff_partition : forall (s : steps) (inputs : list bytes),
+  inputs <> [] -> s <> [] ->
+  let hs := diff_hunks s inputs in
+  (forall h, In h hs -> length (snd h) = length inputs)
+  /\ forall i, i < length inputs ->
+       concat (map (fun h => nth i (contents inputs (snd h)) []) hs) = nth i inputs [].
+Proof. exact (C03_partition M_hist (fun a b => proj1 (M_hist_valid a b))). Qed.
+
+Theorem C03_diff_hunks_ok : forall (s : steps) (inputs : list bytes),
+  inputs <> [] -> s <> [] ->
+  let hs := diff_hunks s inputs in
+  (forall h, In h hs -> exists x, In x (contents inputs (snd h)) /\ x <> [])
+  /\ (forall i h1 h2, nth_error hs i = Some h1 -> nth_error hs (S i) = Some h2 -> fst h1 <> fst h2)
+  /\ (forall c, Forall (fun tc => snd tc = c) s ->
+       forall h, In h hs -> fst h = true ->
+       forall x y, In x (contents inputs (snd h)) -> In y (contents inputs (snd h)) ->
+                   norm c x = norm c y).
+Proof.
+  intros s inputs Hi Hs hs. pose proof (fun a b => proj1 (M_hist_valid a b)) as V.
+  pose proof (fun a b => proj2 (M_hist_valid a b)) as E. repeat split.
+  - now apply (C03_no_empty_hunk M_hist V).
+  - now apply (C03_alternate M_hist V).
+  - intros c Hc. now apply (C03_matching_eq M_hist V E).
+Qed.
+
+(** The same holds with the hash table iterated in the opposite order, which every run also
+    compares with the implementation. *)
+Theorem C03_diff_rev_checker : forall (s : steps) (inputs : list bytes),
+  inputs <> [] -> s <> [] ->
+  hunks_okb s inputs (hunks (run_steps M_hist_rev s inputs)) = true.
+Proof.
+  intros s inputs Hi Hs. apply (model_passes_checker M_hist_rev); auto; intros a b; apply M_hist_rev_valid.
+Qed.
+
 Definition C03_full : Prop :=
   forall (s : steps) (inputs : list bytes), inputs <> [] -> s <> [] ->
   hunks_okb s inputs (diff_hunks s inputs) = true.
 
-Theorem C03_full_from_layerB : C03_layerB_valid_stmt -> C03_full.
+Theorem C03_full_proved : C03_full.
 Proof.
-  intros H s inputs Hi Hs. apply (model_passes_checker M_hist); auto; intros a b; apply H.
+  intros s inputs Hi Hs. apply (model_passes_checker M_hist); auto; intros a b; apply M_hist_valid.
 Qed.
+
+(** Not proved: that the result is independent of the table's iteration order (run-to-run
+    determinism under the per-diff random hash seed). Every run checks it on each case
+    (second run of the real code in the same process; model with reversed order). *)
+Definition C03_deterministic_stmt : Prop :=
+  forall (order1 order2 : list (bytes * list nat) -> list (bytes * list nat)),
+    (forall h, Permutation.Permutation (order1 h) h) ->
+    (forall h, Permutation.Permutation (order2 h) h) ->
+    forall a b, collect_unchanged_words bytes_eqb order1 max_occurrences a b
+                = collect_unchanged_words bytes_eqb order2 max_occurrences a b.
 
 (** The constants used by the model are the ones scraped from core/src/diff.rs. *)
 Theorem C03_tables_agree : tables_okb = true.
@@ -121,3 +185,5 @@ Proof. vm_compute. repeat split. Qed.
 Print Assumptions C03_partition.
 Print Assumptions C03_matching_eq.
 Print Assumptions C03_okb_spec.
+Print Assumptions C03_layerB_valid.
+Print Assumptions C03_full_proved.
